@@ -70,7 +70,10 @@ pub fn new(parameters: &RawParameters, ctx: &dyn Context) -> Result<Op, Error> {
         steps.push(Op::op(step_parameters, ctx)?);
     }
 
-    let params = ParsedParameters::new(parameters, &GAMUT)?;
+    // The pipeline's own parameters must not be read from the text of its steps:
+    // that would let the modifiers of the last step leak onto the pipeline itself
+    let own_parameters = parameters.next("pipeline");
+    let params = ParsedParameters::new(&own_parameters, &GAMUT)?;
     let fwd = InnerOp(pipeline_fwd);
     let inv = InnerOp(pipeline_inv);
     let descriptor = OpDescriptor::new(definition, fwd, Some(inv));
